@@ -237,3 +237,48 @@ func ZZ_C17_AttachOnce() {
 	zzAssert(fs.MutSteps == steps, "C17.refused-attach-touched-the-directory")
 	zzAssert(zzLockDepth(&s.RWMutex) == 0, "C17.attach-once.lock-left-held")
 }
+
+
+// a status query (GetRevisionCounter: REST GET, rebuild verification) overlapping a
+// write: the query's disk read is a scheduling point, the write arrives there. Counting
+// stays exact (the query must not put a stale value into the cache) and the query
+// reports a value the counter really had.
+func ZZ_C10_ReaderWriter() {
+	fs := zzInstallFS()
+	r := zzPreState(fs, 0)
+	c0 := zzNondetInt64("counter")
+	zzAssume(zzAnd(c0 >= 0, c0 < 9223372036854775800))
+	fs.Entries[revisionCounterFile].Ctr = c0
+	r.revisionCache = c0
+	r.mode = types.RW
+	gate := make(chan struct{})
+	opened := false
+	done := make(chan error, 1)
+	go func() {
+		<-gate // the write arrives while the query is reading the counter file
+		buf := make([]byte, 4096)
+		_, err := r.WriteAt(buf, 0)
+		done <- err
+	}()
+	zzOnCounterIO = func() {
+		if !opened {
+			opened = true
+			close(gate)
+		}
+		zzYield()
+	}
+	got := r.GetRevisionCounter()
+	zzOnCounterIO = nil
+	zzSettle()
+	zzAssert(len(done) == 1, "C10.reader-writer.write-did-not-finish")
+	e1 := <-done
+	zzAssert(e1 == nil, "C10.reader-writer.write-failed")
+	zzAssert(zzOr(got == c0, got == c0+1), "C10.reader-writer.query-reports-a-value-the-counter-never-had")
+	zzAssert(zzCell() == c0+1 && r.revisionCache == c0+1, "C10.reader-writer.count-wrong-after-overlapping-query")
+	// the next write counts from the true value
+	buf := make([]byte, 4096)
+	_, e2 := r.WriteAt(buf, 4096)
+	zzAssert(e2 == nil, "C10.reader-writer.second-write-failed")
+	zzAssert(zzCell() == c0+2 && r.revisionCache == c0+2, "C10.reader-writer.increment-lost-after-overlapping-query")
+	zzReach("C10.reader-writer.done")
+}
